@@ -178,7 +178,7 @@ impl Add for Value {
             (Value::DateTime(ldt), Value::Duration(rd)) => Ok(Value::DateTime(ldt.add(rd))),
             (Value::Duration(ld), Value::DateTime(rdt)) => Ok(Value::DateTime(rdt.add(ld))),
             (Value::Duration(ld), Value::Duration(rd)) => Ok(Value::Duration(ld.add(rd))),
-            (Value::Float(lf), Value::Float(rf)) => Ok(Value::Float(lf + rf)),
+            (Value::Float(lf), Value::Float(rf)) => Ok(Value::from_float((lf + rf).0)),
             (Value::Int(li), Value::Int(ri)) => Ok(Value::Int(li + ri)),
             (left, right) => left.binary_op(&f64::add, "+", &right),
         }
@@ -193,7 +193,7 @@ impl Sub for Value {
             (Value::DateTime(ldt), Value::Duration(rf)) => Ok(Value::DateTime(ldt.sub(rf))),
             (Value::DateTime(ldt), Value::DateTime(rdt)) => Ok(Value::Duration(ldt.sub(rdt))),
             (Value::Duration(ld), Value::Duration(rd)) => Ok(Value::Duration(ld.sub(rd))),
-            (Value::Float(lf), Value::Float(rf)) => Ok(Value::Float(lf - rf)),
+            (Value::Float(lf), Value::Float(rf)) => Ok(Value::from_float((lf - rf).0)),
             (Value::Int(li), Value::Int(ri)) => Ok(Value::Int(li - ri)),
             (left, right) => left.binary_op(&f64::sub, "-", &right),
         }
@@ -207,7 +207,7 @@ impl Mul for Value {
         match (self, rhs) {
             (Value::Duration(ld), Value::Int(ri)) => Ok(Value::Duration(ld.mul(ri as i32))),
             (Value::Int(li), Value::Duration(rd)) => Ok(Value::Duration(rd.mul(li as i32))),
-            (Value::Float(lf), Value::Float(rf)) => Ok(Value::Float(lf * rf)),
+            (Value::Float(lf), Value::Float(rf)) => Ok(Value::from_float((lf * rf).0)),
             (Value::Int(li), Value::Int(ri)) => Ok(Value::Int(li * ri)),
             (left, right) => left.binary_op(&f64::mul, "*", &right),
         }
